@@ -28,6 +28,10 @@ func init() {
 			"NOT decided: device-chosen delays and segmentations, and that the expected-response regular expressions match what the device prints.",
 		Assumptions: []string{"regexp matching is opaque", "ReadUntilAnyPrompt returns only after one of the given patterns matched (C01/C05 cover its loop)"},
 		Mutants: []Mutant{
+			{ID: "C12-escalate-prompt-loosened", Desc: "ruijie escalation prompt matches any mention of a password", Rule: "C12/escalate-prompt-anchored",
+				Edits: []Edit{{File: "assets/platforms/ruijie_rgos.yaml", Old: "escalate-prompt: '(?im)^(?:enable\\s){0,1}password:\\s?$'", New: "escalate-prompt: '(?im)password:?'"}}},
+			{ID: "C12-channel-options-break", Desc: "channel.NewOperation stops at the first option that is not its own", Rule: "C12/op-options-applied",
+				Edits: []Edit{{File: "channel/operation.go", Old: "\t\t\tif !errors.Is(err, util.ErrIgnoredOption) {\n\t\t\t\treturn nil, err\n\t\t\t}\n\t\t}\n\t}\n\n\treturn o, nil", New: "\t\t\tif !errors.Is(err, util.ErrIgnoredOption) {\n\t\t\t\treturn nil, err\n\t\t\t}\n\n\t\t\tbreak\n\t\t}\n\t}\n\n\treturn o, nil"}}},
 			{ID: "C12-deescalate-eager", Desc: "deescalate sends its command eagerly", Rule: "C12/priv-steps-plain",
 				Edits: []Edit{{File: "driver/network/acquirepriv.go", Old: "\t_, err := d.Driver.Channel.SendInput(p.Deescalate)", New: "\t_, err := d.Driver.Channel.SendInput(p.Deescalate, func(o interface{}) error {\n\t\tif a, ok := o.(*channel.OperationOptions); ok {\n\t\t\ta.Eager = true\n\n\t\t\treturn nil\n\t\t}\n\n\t\treturn util.ErrIgnoredOption\n\t})"}}},
 			{ID: "C12-scan-disabled", Desc: "completion-pattern scan disabled", Rule: "C12/completion-gate",
@@ -60,6 +64,10 @@ func runC12(c *Ctx, r *Report) {
 	importFoundation(c, r, "C12", "read-loop")
 	r.Rule("C12/explicit-matcher", "the exact echo matcher tests that the search window contains the input", 1)
 	checkExplicitMatcherArgs(c, r, "C12/explicit-matcher")
+	r.Rule("C12/op-options-applied", "channel.NewOperation applies the full per-operation option list (completion patterns, interim prompts, eager) in order, leaving the loop only on a non-ignored error", 1)
+	checkOperationApplyLoop(c, r, "C12/op-options-applied", "channel")
+	r.Rule("C12/escalate-prompt-anchored", "every escalation password prompt shipped in the embedded definitions is a whole-line pattern (named exceptions listed): text that merely mentions a password is not taken for the prompt", 5)
+	checkEscalatePromptAnchored(c, r, "C12/escalate-prompt-anchored")
 	r.Rule("C12/search-window", "expected-response and prompt searches look at a suffix of the buffer that starts on a line boundary (else a line tail ending in 'password:' makes the secret be typed unasked)", 4)
 	importObligations(r, func(sub *Report) { checkSearchDepth(c, sub) }, "C01/search-depth", "C12/search-window")
 	r.Rule("C12/priv-steps-plain", "escalate / deescalate send their command with no per-operation options (the send waits for the following prompt)", 2)
